@@ -318,7 +318,11 @@ def load_findings(pid):
         with open(p) as f:
             data = json.load(f)
         out += [e for e in data.get("findings", []) if e.get("property") == pid]
-    return out
+    # known_findings.json is assembled from known_findings.d: keep one entry per key, the per-property source wins
+    uniq = {}
+    for e in out:
+        uniq[e["key"]] = e
+    return list(uniq.values())
 
 
 # --------------------------------------------------------------------------
